@@ -336,7 +336,6 @@ def gen(repo):
     aliases, cands = utf8_alias_probe(lx["bom_cmp"])
     d("names (of %d probed candidates built from encodings.aliases) that `codecs.lookup` of the running interpreter maps to %r"
       % (len(cands), lx["bom_cmp"]), "utf8Aliases", "List (List Char)", "[" + ", ".join(lean_str(a) for a in aliases) + "]")
-    d("the probed candidates that it does not (or that it does not know)", "probedOtherCount", "Nat", str(len(cands) - len(aliases)))
     d("`codecs.%s` (the constant named in decode_raw_stream)" % lx["bom_name"], "bom", "List Nat",
       "[" + ", ".join(str(b) for b in lx["bom"]) + "]")
     d("the BOM branch drops the BOM from the text before decoding", "bomStripped", "Bool", _b(lx["bom_strips"]))
